@@ -439,6 +439,23 @@ def check_bmin_guard(ctx, R, prefix=()):
     leafwise(ctx, "R7-bmin-enforcement", f"{key}[bmin test]", where, [FL[0]], g, "the bmin cap tests the selected resolution", prefix=prefix)
 
 
+def check_bmin_tested(ctx, R, prefix=()):
+    """multi-stage scheduler: on every path that stores a bin, the bin number is compared with bmin (whatever the stage that chose the
+    length).  A stage whose bins are stored without that comparison can fall below bmin (the cap of the other stages does not reach it)."""
+    key = R.key; where = R.repo.where(key, R.repo.get(key))
+    FL = R.field("L")
+    if FL is None: return
+
+    def g(l, path=None):
+        for cond, pol in path or ():
+            d = getattr(cond, "lt", None)
+            if d is not None and "bmin" in d.fv(): return HOLDS, "", None, None
+            if d is None and "bmin" in getattr(cond, "text", ""): return HOLDS, "", None, None
+        return VIOLATED, ("no minimum-bin test is made on this path: the segment length chosen by this stage is stored without comparing f*L/fs with bmin, "
+                          "so the bins of this stage can fall below bmin"), None, None
+    leafwise(ctx, "R7-bmin-enforcement", f"{key}[bmin tested on every stage]", where, [FL[0]], g, "every stored bin passes a bmin comparison", prefix=prefix)
+
+
 def check_bmin_mask(ctx, R, prefix=()):
     """array form of the bmin enforcement (vectorised scheduler): where the mask `f/rho < bmin` holds the length is built from
     rho' = f/bmin, and the rho tested by the mask is the one the unmasked branch uses:  z_masked * (f/rho_tested) == bmin * z_unmasked
